@@ -418,3 +418,9 @@ def replay(ctx, doc):
 from props import history as _history  # noqa: E402
 
 correspondence, search, replay = _history.attach(PID, correspondence, search, replay, pasts=['commands-before-login', 'second-login-with-a-listener', 'named-an-account-and-left'])
+
+
+# somebody else's classes: the documented extension points used the way a third party uses them (props/thirdparty.py)
+from props import thirdparty as _thirdparty  # noqa: E402
+
+correspondence, search, replay = _thirdparty.attach(PID, correspondence, search, replay)
